@@ -88,6 +88,8 @@ class Exec:
     def cell(self, name, idx):
         if self.alias and name == self.alias[0]:
             name = self.alias[1]
+            if len(idx) == 1:       # a vector output laid over the matrix storage: element k is cell (k / 2, k % 2)
+                idx = (idx[0] // 2, idx[0] % 2)
         return (name,) + tuple(idx)
 
     def read(self, name, idx):
@@ -290,8 +292,6 @@ def run_function(fname, inputs, alias=False, divs=None, depth=0):
         if nm is None:
             continue
         ex.mem[(nm,) + c[1:]] = v
-    if alias and arrays[outname] == "out" and not any(p[2] for p in params if p[0] == outname):
-        raise ParseError("cannot alias a vector output")
     # statements
     lines = []
     for raw in body.split("\n"):
@@ -517,6 +517,11 @@ def verify_function(fname):
                 ok = is_zero(res)
                 obs.append(dict(function=fname, obligation="ZI[%d]" % k, ok=bool(ok),
                                 residual=None if ok else str(sp.simplify(res))[:400]))
+            # aliasing: the Zin vector written over the input matrix's own storage (what vnadata_convert does in place)
+            out2, _, _ = run_function(fname, env, alias=True)
+            same = all(is_zero(out2[(k // 2, k % 2)] - out[(k,)]) for k in (0, 1))
+            obs.append(dict(function=fname, obligation="AL", ok=bool(same),
+                            residual=None if same else "result differs when zi is laid over the input matrix (in-place call)"))
         else:
             OM = {(r, c): out[(r, c)] for r in range(2) for c in range(2)}
             rout = relation(Y, OM)
@@ -658,6 +663,40 @@ def dom_witness_on_real_code(fname, lib, wit):
     return None
 
 
+def alias_witness_on_real_code(fname, lib):
+    """the real function called with the output laid over the input's storage vs. separate buffers"""
+    import ctypes
+    import random
+    import numpy as np
+    rnd = random.Random(777)
+    L = ctypes.CDLL(lib)
+    sig, _, _ = extract(fname)
+    has_z0 = "z0" in sig
+    Y = re.fullmatch(r"vnaconv_([a-z])to([a-z]|zi)", fname).group(2)
+    for _ in range(10):
+        Min = np.array([[complex(rnd.uniform(-2, 2), rnd.uniform(-2, 2)) for _ in range(2)] for _ in range(2)])
+        z0 = np.array([complex(rnd.uniform(20, 100), rnd.uniform(-30, 30)) for _ in range(2)])
+        sep = np.zeros((2, 2) if Y != "zi" else (2,), dtype=complex)
+        a1 = [Min.copy().ctypes.data_as(ctypes.c_void_p), sep.ctypes.data_as(ctypes.c_void_p)]
+        buf = Min.copy()
+        a2 = [buf.ctypes.data_as(ctypes.c_void_p), buf.ctypes.data_as(ctypes.c_void_p)]
+        if has_z0:
+            a1.append(z0.ctypes.data_as(ctypes.c_void_p))
+            a2.append(z0.ctypes.data_as(ctypes.c_void_p))
+        keep = Min.copy()
+        a1[0] = keep.ctypes.data_as(ctypes.c_void_p)
+        getattr(L, fname)(*a1)
+        getattr(L, fname)(*a2)
+        got = buf.reshape(-1)[:sep.size]
+        want = sep.reshape(-1)
+        if not np.all(np.isfinite(want)):
+            continue
+        if np.max(np.abs(got - want)) > 1e-9 * (1 + np.max(np.abs(want))):
+            return dict(input=[[str(c) for c in row] for row in Min.tolist()], z0=[str(c) for c in z0],
+                        separate_buffers=[str(c) for c in want], same_buffer=[str(c) for c in got])
+    return None
+
+
 def build_shared_lib():
     import subprocess
     wd = os.path.join(VERIF, "build", "C04")
@@ -717,6 +756,8 @@ def main():
                     for o in os_:
                         if o.get("dom_witness"):
                             wit = dom_witness_on_real_code(f, lib, o["dom_witness"])
+                        elif o["obligation"] == "AL" and re.fullmatch(r"vnaconv_[a-z]to([a-z]|zi)", f):
+                            wit = alias_witness_on_real_code(f, lib)
             except Exception as e:  # pragma: no cover
                 wit = None
             path = os.path.join(rdir, f + ".json")
